@@ -806,21 +806,49 @@ Qed.
 Theorem step_wf : forall g o, wf g ->
   wf (step g o) /\ (forall x y, edge (step g o) x y <-> spec_edge g o x y).
 Proof.
-  intros g [a b | a | a b | a] H; cbn [step].
+  intros g [a b | a | a b | a | a b | a b |] H; cbn [step].
   - apply add_equivalence_wf; exact H.
   - apply expire_wf; exact H.
   - apply remove_equivalence_wf; exact H.
   - apply remove_all_wf; exact H.
+  - apply (add_equivalence_wf g a b H).
+  - split; [exact H | intros x y; cbn [spec_edge]; tauto].
+  - split; [exact H | intros x y; cbn [spec_edge]; tauto].
+Qed.
+
+Lemma alive_add_equivalence : forall g a b, alive (add_equivalence g a b) = alive g.
+Proof.
+  intros g a b. unfold add_equivalence. destruct (alive g a && alive g b); [|reflexivity].
+  destruct (set_equivalent_to g a b) as [g1 c1] eqn:E1. destruct (set_equivalent_to g1 b a) as [g2 c2] eqn:E2.
+  pose proof (set_equivalent_to_eqv _ _ _ _ _ E1) as [A1 _]. pose proof (set_equivalent_to_eqv _ _ _ _ _ E2) as [A2 _].
+  destruct (c1 && negb c2); [rewrite alive_unset|]; rewrite A2, A1; reflexivity.
+Qed.
+
+(** Only destruction changes which objects exist. *)
+Lemma alive_step : forall g o x,
+  alive (step g o) x = match o with Expire a => if x =? a then false else alive g x | _ => alive g x end.
+Proof.
+  intros g [a b | a | a b | a | a b | a b |] x; cbn [step].
+  - rewrite alive_add_equivalence. reflexivity.
+  - unfold expire. cbn [alive]. unfold upd. reflexivity.
+  - unfold remove_equivalence. destruct (alive g a && alive g b); [|reflexivity]. destruct (unset_found g a b); reflexivity.
+  - unfold remove_all_equivalences. destruct (alive g a); [|reflexivity]. cbn [set_wadj alive]. rewrite fold_unset_alive. reflexivity.
+  - rewrite alive_add_equivalence. reflexivity.
+  - reflexivity.
+  - reflexivity.
 Qed.
 
 Lemma spec_edge_bounded : forall n g o, bounded g n -> op_below n o ->
   forall x y, spec_edge g o x y -> y < n.
 Proof.
-  intros n g [a b | a | a b | a] Hbd Ho x y H; cbn [spec_edge op_below] in *.
+  intros n g [a b | a | a b | a | a b | a b |] Hbd Ho x y H; cbn [spec_edge op_below] in *.
   - destruct H as [H | [_ [_ [_ [[_ ->] | [_ ->]]]]]]; [eapply Hbd; eauto | lia | lia].
   - destruct H as [H _]. eapply Hbd; eauto.
   - destruct H as [H _]. eapply Hbd; eauto.
   - destruct H as [H _]. eapply Hbd; eauto.
+  - destruct H as [H | [_ [_ [_ [[_ ->] | [_ ->]]]]]]; [eapply Hbd; eauto | lia | lia].
+  - eapply Hbd; eauto.
+  - eapply Hbd; eauto.
 Qed.
 
 Lemma step_inv : forall n g o, wf g -> bounded g n -> op_below n o -> wf (step g o) /\ bounded (step g o) n.
@@ -998,15 +1026,103 @@ Proof.
   destruct (step_inv n g o Hwf Hbd Ho) as [Hwf1 Hbd1]. pose proof Hwf1 as [_ [Hs1 _]].
   split; [apply freeze_wf; assumption|]. split.
   - intros x y. rewrite (edge_freeze_sym n _ Hs1 Hbd1). apply step_wf. exact Hwf.
-  - intros x. rewrite alive_freeze. destruct (x <? n); [|discriminate].
-    destruct o as [a b | a | a b | a]; cbn [step].
-    + unfold add_equivalence. destruct (alive g a && alive g b) eqn:E; [|auto].
-      destruct (set_equivalent_to g a b) as [g1 c1] eqn:E1. destruct (set_equivalent_to g1 b a) as [g2 c2] eqn:E2.
-      pose proof (set_equivalent_to_eqv _ _ _ _ _ E1) as [A1 _]. pose proof (set_equivalent_to_eqv _ _ _ _ _ E2) as [A2 _].
-      destruct (c1 && negb c2); [rewrite alive_unset|]; rewrite A2, A1; auto.
-    + unfold expire. cbn [alive]. unfold upd. destruct (x =? a); [discriminate | auto].
-    + unfold remove_equivalence. destruct (alive g a && alive g b); [|auto]. destruct (unset_found g a b); auto.
-    + unfold remove_all_equivalences. destruct (alive g a); [|auto]. cbn [set_wadj alive]. rewrite fold_unset_alive. auto.
+  - intros x. rewrite alive_freeze. destruct (x <? n); [|discriminate]. rewrite alive_step.
+    destruct o; auto. destruct (x =? a); [discriminate | auto].
+Qed.
+
+(** ** Identifier operations are irrelevant: deleting them from a history changes no answer *)
+
+Definition geq (n : nat) (g1 g2 : graph) : Prop :=
+  (forall x y, edge g1 x y <-> edge g2 x y) /\ (forall x, x < n -> alive g1 x = alive g2 x).
+
+Lemma geq_sym : forall n g1 g2, geq n g1 g2 -> geq n g2 g1.
+Proof. intros n g1 g2 [E A]. split; [intros x y; symmetry; apply E | intros x Hx; symmetry; apply A; exact Hx]. Qed.
+
+Lemma geq_trans : forall n g1 g2 g3, geq n g1 g2 -> geq n g2 g3 -> geq n g1 g3.
+Proof.
+  intros n g1 g2 g3 [E1 A1] [E2 A2]. split.
+  - intros x y. rewrite E1. apply E2.
+  - intros x Hx. rewrite A1 by exact Hx. apply A2. exact Hx.
+Qed.
+
+Lemma freeze_geq : forall n g, wf g -> bounded g n -> geq n (freeze n g) g.
+Proof.
+  intros n g [_ [Hs _]] Hbd. split.
+  - intros x y. apply edge_freeze_sym; assumption.
+  - intros x Hx. rewrite alive_freeze. apply Nat.ltb_lt in Hx. rewrite Hx. reflexivity.
+Qed.
+
+Lemma spec_edge_geq : forall n g1 g2 o, geq n g1 g2 -> op_below n o ->
+  forall x y, spec_edge g1 o x y <-> spec_edge g2 o x y.
+Proof.
+  intros n g1 g2 o [E A] Ho x y.
+  destruct o as [a b | a | a b | a | a b | a b |]; cbn [spec_edge op_below] in *; rewrite (E x y); try tauto.
+  - destruct Ho as [Ha Hb]. rewrite (A a Ha), (A b Hb). tauto.
+  - destruct Ho as [Ha Hb]. rewrite (A a Ha), (A b Hb). tauto.
+Qed.
+
+Lemma step_geq : forall n g1 g2 o, wf g1 -> wf g2 -> bounded g1 n -> bounded g2 n -> geq n g1 g2 -> op_below n o ->
+  geq n (freeze n (step g1 o)) (freeze n (step g2 o)).
+Proof.
+  intros n g1 g2 o W1 W2 B1 B2 G Ho.
+  destruct (history_step_edges n g1 o W1 B1 Ho) as [_ [E1 _]].
+  destruct (history_step_edges n g2 o W2 B2 Ho) as [_ [E2 _]].
+  split.
+  - intros x y. rewrite E1, E2. apply (spec_edge_geq n g1 g2 o G Ho).
+  - intros x Hx. rewrite !alive_freeze. destruct (x <? n); [|reflexivity]. rewrite !alive_step.
+    destruct G as [_ A]. destruct o; try (apply A; exact Hx). destruct (x =? a); [reflexivity | apply A; exact Hx].
+Qed.
+
+Lemma answered_geq : forall n g1 g2 k a b r1 r2, geq n g1 g2 ->
+  answered (g1, k, a, b) r1 -> answered (g2, k, a, b) r2 -> r1 = r2.
+Proof.
+  intros n g1 g2 k a b r1 r2 [E _] [x [-> Hx]] [y [-> Hy]]. f_equal. apply bool_eq_iff.
+  pose proof (connected_ext g1 g2 E a b) as C.
+  destruct k; cbn [ask_spec] in Hx, Hy; rewrite Hx, Hy; try rewrite C; try rewrite (E a b); tauto.
+Qed.
+
+Lemma ids_irrelevant_gen : forall n h, Forall (event_below n) h ->
+  forall g1 g2 c1 c2, wf g1 -> wf g2 -> bounded g1 n -> bounded g2 n -> geq n g1 g2 ->
+    cache_inv (model_key heap_addr) (clamp n n g1) c1 -> cache_inv (model_key heap_addr) (clamp n n g2) c2 ->
+    run_history n g1 c1 h = run_history n g2 c2 (strip_ids h).
+Proof.
+  intros n h H. induction H as [|e t He _ IH]; intros g1 g2 c1 c2 W1 W2 B1 B2 G C1 C2; [reflexivity|].
+  destruct e as [o | k a b]; cbn [event_below] in He.
+  - assert (Same : forall o', step g1 o = step g1 o' -> op_below n o' ->
+               run_history n (freeze n (step g1 o)) [] t = run_history n (freeze n (step g2 o')) [] (strip_ids t)).
+    { intros o' Eo Ho'. rewrite Eo.
+      destruct (step_inv n g1 o' W1 B1 Ho') as [W1' B1']. destruct (freeze_wf n _ W1' B1') as [W1'' B1''].
+      destruct (step_inv n g2 o' W2 B2 Ho') as [W2' B2']. destruct (freeze_wf n _ W2' B2') as [W2'' B2''].
+      apply IH; try assumption; try apply cache_inv_nil. apply step_geq; assumption. }
+    assert (Skip : step g1 o = g1 ->
+               run_history n (freeze n (step g1 o)) [] t = run_history n g2 c2 (strip_ids t)).
+    { intros Eo. rewrite Eo. destruct (freeze_wf n g1 W1 B1) as [W1' B1'].
+      apply IH; try assumption; try apply cache_inv_nil.
+      eapply geq_trans; [apply freeze_geq; assumption | exact G]. }
+    destruct o as [a b | a | a b | a | a b | a b |]; cbn [strip_ids strip_op run_history].
+    + apply (Same (AddEq a b)); [reflexivity | exact He].
+    + apply (Same (Expire a)); [reflexivity | exact He].
+    + apply (Same (RemEq a b)); [reflexivity | exact He].
+    + apply (Same (RemAll a)); [reflexivity | exact He].
+    + apply (Same (AddEq a b)); [reflexivity | exact He].
+    + apply Skip. reflexivity.
+    + apply Skip. reflexivity.
+  - destruct He as [Ha Hb]. cbn [strip_ids run_history].
+    destruct (ask_correct n g1 c1 k a b W1 B1 Ha Hb C1) as [A1 C1'].
+    destruct (ask_correct n g2 c2 k a b W2 B2 Ha Hb C2) as [A2 C2'].
+    destruct (ask n g1 c1 k a b) as [r1 c1'] eqn:E1. destruct (ask n g2 c2 k a b) as [r2 c2'] eqn:E2.
+    cbn [fst snd] in *. f_equal.
+    + eapply answered_geq; eauto.
+    + apply IH; assumption.
+Qed.
+
+(** Any interleaving of identifier operations (4-argument addEquivalence, set/remove mapping and
+    connection identifiers on any pair, re-parsing the printed model) leaves every answer unchanged. *)
+Theorem ids_irrelevant : forall n h, Forall (event_below n) h ->
+  run_history n empty_graph [] h = run_history n empty_graph [] (strip_ids h).
+Proof.
+  intros n h H. apply (ids_irrelevant_gen n h H); try apply wf_empty; try apply cache_inv_nil; try (intros v w []).
+  split; [tauto | reflexivity].
 Qed.
 
 (** Non-vacuity: a chain 0-1-2 with 3 isolated and 4 destroyed after being linked to 2. *)
@@ -1037,3 +1153,17 @@ Example history_nonvacuous :
      Some false; Some true; Some false] /\
   Forall (event_below 4) ex_history.
 Proof. split; [vm_compute; reflexivity | unfold ex_history; repeat constructor]. Qed.
+
+(** The situation an identifier shortcut gets wrong: chain 0-1-2 made with identifiers, an identifier set on the
+    indirect pair (0,2), then the link 1-2 removed; and removeAllEquivalences on a variable that holds identifiers. *)
+Definition ex_id_history : list event :=
+  [Edit (AddEq4 0 1); Edit (AddEq4 1 2); Edit (IdOp 0 2); Ask QIndirect 0 2; Edit (RemEq 1 2); Edit (IdOp 2 0);
+   Ask QIndirect 0 2; Ask QIndirect 2 0; Ask QCached 0 2; Edit Reparse; Edit (RemAll 0); Ask QIndirect 0 1; Ask QUtil 1 0].
+Example ids_nonvacuous :
+  run_history 3 empty_graph [] ex_id_history =
+    [Some true; Some false; Some false; Some false; Some false; Some false] /\
+  Forall (event_below 3) ex_id_history /\
+  strip_ids ex_id_history =
+    [Edit (AddEq 0 1); Edit (AddEq 1 2); Ask QIndirect 0 2; Edit (RemEq 1 2);
+     Ask QIndirect 0 2; Ask QIndirect 2 0; Ask QCached 0 2; Edit (RemAll 0); Ask QIndirect 0 1; Ask QUtil 1 0].
+Proof. split; [vm_compute; reflexivity | split; [unfold ex_id_history; repeat constructor | reflexivity]]. Qed.
